@@ -94,6 +94,49 @@ def run_cases(chk, plan, label, crlf_ok=True):
     return len(batch)
 
 
+def run_mixed_markdown(chk, quick):
+    """Markdown files mixing [//]: # comments and HTML comments (Pairing with two comment kinds).
+    The contract pairs all tags on one stack; the Markdown parser pairs each kind separately
+    (deviation M1, modelled by SplitKinds): failures are excused only when the split machine
+    predicts the observation exactly."""
+    res = vlib.run_tlc("MC_C03", cfg="MC_C03md", timeout=1800, heap="12g")
+    chk.add_tlc(res, "MC_C03md (two comment kinds, split stacks)")
+    cases = [c for c in res.cases if c["mixed"]]
+    chk.rng.shuffle(cases)
+    cases = cases[:600 if quick else 6000]
+    batch, meta = [], {}
+    for i, c in enumerate(cases):
+        ext = ("md", "markdown")[i % 2]
+        r = langs.render(c["items"], ext, i, mixed_md=True)
+        cid = "mdx%d" % i
+        batch.append({"id": cid, "files": {r["name"]: r["text"]}, "diff": None, "args": ["list"], "terminal": True})
+        meta[cid] = (c, r)
+    results = vlib.run_bwexec(batch)
+    for case in batch:
+        c, r = meta[case["id"]]
+        res_ = results[case["id"]]
+        chk.count(nontrivial=True)
+        by = {(s_["item"], s_["pos"]): s_ for s_ in r["starts"]}
+
+        def names(blocks):
+            return sorted(by[(b["s_item"], b["s_pos"])]["name"] for b in blocks)
+        detail = {"abstract": c, "concrete": case, "observed": {k: res_.get(k) for k in ("outcome", "exit", "list", "error")}}
+        if res_["outcome"] in ("panic", "hang", "abort"):
+            chk.violation("mixed Markdown: crash", detail)
+            continue
+        obs_err = res_["outcome"] != "ok"
+        obs_names = sorted(b["name"] for b in (res_.get("list") or {}).get(r["name"], [])) if not obs_err else None
+        want_err = c["contract"]["err"] != "none"
+        ok = (obs_err == want_err) and (obs_err or obs_names == names(c["contract"]["blocks"]))
+        if ok:
+            continue
+        pred_err = c["err"] != "none"
+        why = ("M1",) if (obs_err == pred_err and (obs_err or obs_names == names(c["blocks"]))) else ()
+        chk.violation("mixed Markdown comment kinds: %s, but the tags written in comments are %s" % (
+            "rejected: " + (res_.get("error") or "")[:80] if obs_err else "blocks %s" % obs_names,
+            "unbalanced" if want_err else "the pairs %s" % names(c["contract"]["blocks"])), detail, explained_by=why)
+
+
 def run(chk):
     quick = chk.tier == "quick"
     chk.rule = ("TLC enumerates every file of <= MaxItems items (code line, string/markup decoy holding tags, comment "
@@ -116,6 +159,7 @@ def run(chk):
             plan.append((c, ext, k))
     chk.exhaustive = not quick
     run_cases(chk, plan, "c03-")
+    run_mixed_markdown(chk, quick)
     chk.notes["suffixes"] = len(langs.ALL_SUFFIXES)
     chk.notes["forms_per_suffix"] = {e: langs.forms(e) for e in langs.ALL_SUFFIXES}
     if plan:
